@@ -220,7 +220,14 @@ let add_tj_cases (file : string) : unit =
         (match lookup_serde (coqstr name) (j_table depth3) with
          | Some (sch, a) ->
            (match (try dec sch (bytes_of_hex hexs) with _ -> Err) with
-            | Ok (v, []) -> Printf.fprintf oc "tj %s %s %s\n" name hexs (show s_json (j_json a v))
+            | Ok (v, []) ->
+              let j = j_json a v in
+              Printf.fprintf oc "tj %s %s %s\n" name hexs (show s_json j);
+              (* and the value that comes back from that JSON (maps in key order, default wire forms), when different *)
+              (match (try j_of_json a j with _ -> Err) with
+               | Ok v' when j_wf a v && not (val_eqb v v') && wfv sch v' ->
+                 Printf.fprintf oc "tj %s %s %s\n" name (hex_of_bytes (enc sch v')) (show s_json (j_json a v'))
+               | _ -> ())
             | _ -> ())
          | None -> ())
       | _ -> ()) (List.rev !lines);
